@@ -105,8 +105,9 @@ MANIFEST = {
     "category": "proof",
     "text": "Scalar kernels (the stable Givens rotation with its Taylor branch) are proved loop-free over the FULL finite domain in binary32 (quick) and binary64 (thorough): "
             "no NaN, exact y==0 / x==0 cases with the documented signs, |c|,|s|<=1, sign conventions, no collapse (max(|c|,|s|)>=0.70), |.|_max <= r <= 1.5|.|_max. "
-            "Matrix kernels (Hessenberg/tridiagonal QR, Q'HQ, apply_*) are BOUNDED stand-ins at concrete n with full unwinding: exact triangular/Hessenberg/tridiagonal-symmetric "
-            "shape, frames, memory safety. Orthogonality and similarity to n*eps are numerical and NOT decided.",
+            "TridiagQR::matrix_QtHQ keeps the tridiagonal, exactly symmetric shape (UNBOUNDED frame proof). Other matrix kernels are BOUNDED stand-ins at concrete n with full "
+            "unwinding: Hessenberg QR (R exactly triangular, Q'HQ exactly Hessenberg, memory safety), TridiagQR::compute, DoubleShiftQR (block splitting, bulge chase for every concrete "
+            "block, apply_YQ: memory safety and reflector well-formedness). Orthogonality and similarity to n*eps are numerical and NOT decided.",
     "note": "CBMC's IEEE model trusted; bounded groups are labelled with their bound in the evidence and never counted in obligations/discharged of the proof part",
     "technique": "CBMC full-domain loop-free float proofs (kissat) + bounded unwinding of the raw-pointer kernels at concrete n",
 }
